@@ -16,7 +16,7 @@ use std::sync::{Arc, Mutex};
 pub const GROUPS: &[&str] = &[
     "usart_dec", "usart_enc", "usart_rt", "can_dec", "can_enc", "can_rt", "to_frames", "frag_rt", "builder", "ev_enc", "ev_rt", "ev_dec",
     "ev_cross", "ev_xenc", "rx_usart", "rx_serial", "rx_can", "rxh_usart", "rxh_serial", "rxh_can", "tx_usart", "tx_can", "tx_serial", "loop_usart",
-    "loop_serial", "loop_can", "e2e_usart", "e2e_serial", "e2e_can", "proto", "usart_dec_enum", "can_dec_enum", "builder_enum", "psend_usart", "psend_can", "psend_serial", "frt_can", "frt_usart", "frag_rt_enum", "to_frames_enum", "ev_ref", "proto_enum", "proto_send_enum", "sched_usart_enum", "sched_serial_enum", "sched_can_enum", "tx_usart_enum", "tx_can_enum", "tx_serial_enum",
+    "loop_serial", "loop_can", "e2e_usart", "e2e_serial", "e2e_can", "proto", "usart_dec_enum", "can_dec_enum", "builder_enum", "psend_usart", "psend_can", "psend_serial", "frt_can", "frt_usart", "frag_rt_enum", "to_frames_enum", "ev_ref", "proto_enum", "proto_send_enum", "proto_xchg_enum", "sched_usart_enum", "sched_serial_enum", "sched_can_enum", "tx_usart_enum", "tx_can_enum", "tx_serial_enum",
 ];
 
 fn guard<T>(f: impl FnOnce() -> T) -> Option<T> {
@@ -2015,6 +2015,7 @@ impl Gen {
             "proto" => format!("proto {}", crate::proto::gen(r)),
             "proto_enum" => format!("proto {}", crate::proto::enum_registry(i)),
             "proto_send_enum" => format!("proto {}", crate::proto::enum_routing(i)),
+            "proto_xchg_enum" => format!("proto {}", crate::proto::enum_exchange(i)),
             "frag_rt_enum" => format!("frag_rt {} {}", ["direct", "can", "usart"][(i % 3) as usize], text::packet_gen(i % 2 == 1, 0x1234u16.wrapping_mul(i as u16 | 1), i / 3, (i / 3) as usize)),
             "to_frames_enum" => format!("to_frames {}", text::packet_gen(i % 2 == 1, 0x4321u16.wrapping_add(i as u16), i, i as usize)),
             "sched_usart_enum" => enum_sched("usart", i).or_else(|| enum_sched("usart", 0)).unwrap(),
